@@ -475,6 +475,7 @@ impl Monitor for C18 {
             n_max: if rng.chance(1, 8) { tier.pick(50, 100) } else { 20 },
             defaults: true,
             flags: true,
+            dangling_replacement: false,
             max_recs: 5,
             ..GenCfg::default()
         };
